@@ -507,7 +507,21 @@ def _get_outputs(ctx: Ctx, c: Collector) -> None:
                     if args[5] != ("idx", ("idx", data, se), sa):
                         pr.append("the pushed value is not data[src_eid][src_attr]")
                 # pushed iff present: KeyError from the lookup skips the push
-                if not any(r == "body" for _, r in e.tries):
+                def lookup_guarded() -> bool:
+                    # `try: val = data[eid][attr]  except KeyError: continue` before the pushes of the same port
+                    import ast as _ast
+                    for b in s.of_kind("bind"):
+                        if len(args) == 6 and T.strip(b.term[2]) == args[5] and b.iters == e.iters[:1] and b.idx < e.idx:
+                            for tid, role in b.tries:
+                                if role != "body":
+                                    continue
+                                for h in s.of_kind("test"):
+                                    if h.term[0] == "except" and (tid, "handler") in h.tries and T.show(h.term[1]).endswith("KeyError") \
+                                            and isinstance(h.node, _ast.ExceptHandler) and h.node.body and isinstance(h.node.body[-1], _ast.Continue) \
+                                            and not any(x.kind in ("call", "store", "raise") and (tid, "handler") in x.tries for x in s.events):
+                                        return True
+                    return False
+                if not any(r == "body" for _, r in e.tries) and not lookup_guarded():
                     pr.append("a missing attribute in the reply is not tolerated (no try/except KeyError around the push)")
     if adds:
         # pushed iff present: nothing but "some output is connected" (the guard of get_data itself) may stand
